@@ -9,10 +9,12 @@ PROPS = {
     'C02': dict(kind='pool', files=POOL_BASE + ['SetProofs.v', 'C02.v'], quick=300, thorough=4000),
     'C03': dict(kind='pool', files=POOL_BASE + ['AssocProofs.v', 'C03.v'], quick=300, thorough=4000),
     'C09': dict(kind='pool', files=POOL_BASE + ['Sorter.v', 'SorterProofs.v', 'C09.v'], quick=300, thorough=4000),
-    'C13': dict(kind='pool', files=POOL_BASE + ['C13.v'], quick=300, thorough=4000),
     'C14': dict(kind='pool', files=POOL_BASE + ['AssocProofs.v', 'C14.v'], quick=300, thorough=4000),
     'C15': dict(kind='pool', files=POOL_BASE + ['SetProofs.v', 'C15.v'], quick=300, thorough=4000),
     'C16': dict(kind='pool', files=POOL_BASE + ['AssocProofs.v', 'C16.v'], quick=300, thorough=4000),
+    'C07': dict(kind='collate', files=['Base.v', 'Sorter.v', 'Value.v', 'CollateProofs.v', 'C07.v'], quick=400, thorough=8000),
+    'C08': dict(kind='collate', files=['Base.v', 'Sorter.v', 'Value.v', 'CollateProofs.v', 'C08.v'], quick=400, thorough=8000),
+    'C13': dict(kind='pool', files=POOL_BASE + ['StackProofs.v', 'C13.v'], quick=300, thorough=4000),
     'C17': dict(kind='pool', files=POOL_BASE + ['IterProofs.v', 'C17.v'], quick=300, thorough=4000),
     'C18': dict(kind='pool', files=POOL_BASE + ['PoolFrame.v', 'C18.v'], quick=300, thorough=4000),
 }
@@ -60,6 +62,14 @@ def model_view(drv, pid, outdir, shard_file, local_case, step):
     """ask Coq what the model computes for one case up to a step (for replay files / explain)"""
     src = open(os.path.join(outdir, shard_file)).read()
     src = src.split('Definition M :=')[0]
+    if PROPS[pid]['kind'] == 'collate':
+        src += ("Definition the_case := nth %d cases {| cc_max := 0; cc_calls := [] |}.\n"
+                "Definition the_call := nth %d (cc_calls the_case) (CRank VNil VNil None).\n"
+                "Definition Report := Eval vm_compute in (the_call, call_report (cc_max the_case) the_call).\nPrint Report.\n") % (local_case, step)
+        p = os.path.join(outdir, 'explain_tmp.v')
+        open(p, 'w').write(src)
+        rc, out = drv.run(['timeout', '600', 'coqc', '-R', drv.COQ, 'Verif', p], cwd=outdir)
+        return out
     src += ("Definition the_case := nth %d cases {| h_zero := VNil; h_steps := [] |}.\n"
             "Definition before := pool_after (h_zero the_case) [] (firstn %d (map ps_op (h_steps the_case))).\n"
             "Definition Report := Eval vm_compute in (step_report (h_zero the_case) before (nth %d (h_steps the_case) {| ps_op := IsEmpty 0; ps_ret := RBad; ps_diff := [] |})).\n"
@@ -89,6 +99,8 @@ def check(drv, pid, tier, seed):
         print('check: cannot build (%s):\n%s' % (stage, info.get('output', '')[-3000:]))
         return 2
     outdir = os.path.join(drv.BUILD, pid)
+    for old in glob.glob(os.path.join(drv.BUILD, 'replay', pid + '-*.json')):
+        os.remove(old)
     shutil.rmtree(outdir, ignore_errors=True)
     os.makedirs(outdir)
     count = cfg[tier if tier in ('quick', 'thorough') else 'quick']
